@@ -100,11 +100,21 @@ def oracleFail (st : Stats) (msg : String) : IO Stats := do
   IO.println s!"ORACLE {msg}"
   return { st with oracle := st.oracle + 1 }
 
+/-- one SMTP command line as qmail-smtpd reads it (model side): (verb matches, addrparse rc, address) -/
+def smtpSide (line : Bytes) (verb : String) : Bool × Int × Bytes :=
+  let (mverb, marg) := match readLine line with
+    | some (ln, _) => splitCmd ln
+    | none => ([], [])
+  let mverbOk := lower mverb == str verb
+  let maddr := if mverbOk then addrparse smtpdCfg marg else none
+  (mverbOk, (if !mverbOk then -1 else if maddr.isSome then 1 else 0),
+   maddr.getD (if mverbOk then (localIp smtpdCfg (copyAddr 62 false false (stripRoute ((afterFirst 60 marg).getD [])))) else []))
+
 def handleQ (st : Stats) (f : List String) : IO Stats := do
   match f with
-  | [lh, dh, needS, qh, q2h, prcS, toksS, uqh, mh, verbS, aprcS, addrh] =>
-    match unhex lh, unhex dh, unhex uqh, unhex addrh with
-    | some l, some d, some uq, some addr =>
+  | [lh, dh, needS, qh, q2h, prcS, toksS, uqh, mh, verbS, aprcS, addrh, arcS, gotS, verb2S, aprc2S, addr2h] =>
+    match unhex lh, unhex dh, unhex uqh, unhex addrh, unhex addr2h with
+    | some l, some d, some uq, some addr, some addr2 =>
       let a := l ++ [AT] ++ d
       let need := quoteNeed l
       let mut st := note st (81 :: a) need
@@ -113,41 +123,47 @@ def handleQ (st : Stats) (f : List String) : IO Stats := do
       let mq2 := quote2 a
       let mtoks := parse mq2
       let mm := addrmangle a
-      let (mverb, marg) := match readLine (mailFromLine a) with
-        | some (ln, _) => splitCmd ln
-        | none => ([], [])
-      let mverbOk := lower mverb == str "mail"
-      let maddr := if mverbOk then addrparse smtpdCfg marg else none
+      let (mverbOk, mrc, maddr) := smtpSide (mailFromLine a) "mail"
+      let (mverbOk2, mrc2, maddr2) := smtpSide (rcptToLine a) "rcpt"
+      let mal := mtoks.map (fun ts => addrlist id (Tok.atom [84] :: Tok.colon :: ts))
       let mline := s!"{if need then 1 else 0} {hex (quote l)} {hex mq2} {if mtoks.isSome then 1 else 0} {optToksStr mtoks} " ++
-        s!"{hex ((mtoks.map unquote).getD [])} {hex mm} {if mverbOk then 1 else 0} " ++
-        s!"{if !mverbOk then -1 else if maddr.isSome then 1 else 0} {hex (maddr.getD (if mverbOk then (localIp smtpdCfg (copyAddr 62 false false (stripRoute ((afterFirst 60 marg).getD [])))) else []))}"
-      let iline := s!"{needS} {qh} {q2h} {prcS} {toksS} {uqh} {mh} {verbS} {aprcS} {addrh}"
+        s!"{hex ((mtoks.map unquote).getD [])} {hex mm} {if mverbOk then 1 else 0} {mrc} {hex maddr} " ++
+        s!"{match mal with | some r => (if r.ok then 1 else 0) | none => 0} {match mal with | some r => gotStr r.got | none => "-"} " ++
+        s!"{if mverbOk2 then 1 else 0} {mrc2} {hex maddr2}"
+      let iline := s!"{needS} {qh} {q2h} {prcS} {toksS} {uqh} {mh} {verbS} {aprcS} {addrh} {arcS} {gotS} {verb2S} {aprc2S} {addr2h}"
       if mline != iline then
         st ← disagree st s!"kind=Q in={lh} dom={dh} impl={iline} model={mline}"
-      -- oracle (1): header round trip, on the implementation's own quote2 / parse / unquote
+      -- oracle (1): header round trip, on the implementation's own quote2 / parse / unquote / addrlist
+      -- (C17_header_roundtrip_addrlist: accepted, unquotes to the address, shape, ONE callback with the whole address)
       if saneDomain d then
-        let shapeOk := match toksOfStr toksS with
-          | some ts => mailboxShape ts
-          | none => false
-        if !(prcS == "1" && uq == a && shapeOk) then
-          st ← oracleFail st s!"kind=Qheader in={lh} dom={dh} quote2={q2h} parse_rc={prcS} tokens={toksS} unquote={uqh} expected={hex a}"
-      -- oracle (2): SMTP round trip, on the implementation's own addrmangle / commands / addrparse
+        st := st.bump "Q_header_checked"
+        let (shapeOk, oneCb) := match toksOfStr toksS with
+          | some ts => (mailboxShape ts, arcS == "1" && gotS == gotStr [ts.reverse])
+          | none => (false, false)
+        if !(prcS == "1" && uq == a && shapeOk && oneCb) then
+          st ← oracleFail st s!"kind=Qheader in={lh} dom={dh} quote2={q2h} parse_rc={prcS} tokens={toksS} unquote={uqh} addrlist_rc={arcS} got={gotS} expected={hex a}"
+      -- oracle (2): SMTP round trip, on the implementation's own addrmangle / commands / addrparse, MAIL FROM and RCPT TO
       if smtpDomain d then
         let expect : Option Bytes :=
           if isLocalLiteral smtpdCfg d then
             (if (l ++ [AT] ++ str "lip.example").length + 1 > 900 then none else some (l ++ [AT] ++ str "lip.example"))
           else if a.length + 1 > 900 then none else some a
-        let ok := verbS == "1" && (match expect with
+        let ok1 := verbS == "1" && (match expect with
           | some e => aprcS == "1" && addr == e
           | none => aprcS == "0")
+        let ok2 := verb2S == "1" && (match expect with
+          | some e => aprc2S == "1" && addr2 == e
+          | none => aprc2S == "0")
         st := st.bump (if isLocalLiteral smtpdCfg d then "Q_localip" else if a.length + 1 > 900 then "Q_toolong" else "Q_smtp")
-        if !ok then
+        if !ok1 then
           st ← oracleFail st s!"kind=Qsmtp in={lh} dom={dh} mangled={mh} verb={verbS} addrparse_rc={aprcS} addr={addrh} expected={(expect.map hex).getD "refused"}"
+        if !ok2 then
+          st ← oracleFail st s!"kind=Qsmtp_rcpt in={lh} dom={dh} mangled={mh} verb={verb2S} addrparse_rc={aprc2S} addr={addr2h} expected={(expect.map hex).getD "refused"}"
       if st.samples < 2 && need && l.length ≥ 4 then
         IO.println s!"SAMPLE Q local={lh} dom={dh} quote2={q2h} tokens={toksS} unquote={uqh} mangled={mh} addrparse={addrh}"
         st := { st with samples := st.samples + 1 }
       return st
-    | _, _, _, _ => disagree st s!"unparsable Q line"
+    | _, _, _, _, _ => disagree st s!"unparsable Q line"
   | _ => disagree st s!"unparsable Q line"
 
 /-- comment tokens removed (the predicate of `C17_comments_ignored`; local copy, the lemma file's is not linked) -/
@@ -311,8 +327,6 @@ def angleComment (inp : Bytes) : Bool :=
     | some ts => commentInAngle ts false
     | none => false)
 
-def hiddenFields : List Bytes := [str "bcc", str "resent-bcc", str "return-path", str "content-length"]
-
 def handleI (clk : Clock) (st : Stats) (f : List String) : IO Stats := do
   match f with
   | [flagsS, stratS, fsS, recS, envS, inh, eS, exS, sndh, rcpS, msgh, ex2S, rcp2S] =>
@@ -337,7 +351,15 @@ def handleI (clk : Clock) (st : Stats) (f : List String) : IO Stats := do
         else r.exit == 0 && r.sender == snd && r.recips == rcps && r.msg == msg
       if !agree then
         st ← disagree st s!"kind=I flags={flagsS} strat={stratS} f={fsS} args={recS} env={envS} in={inh} impl={exS} {sndh} {rcpS} {msgh} model={r.exit} {hex r.sender} {hexListStr r.recips} {hex r.msg}"
+      -- oracle (9) (audit repair: a grammar case that BOTH sides reject used to be silent): on a generated,
+      -- grammatical header (E known by construction) qmail-inject must not die — `C17_envelope` says parse and
+      -- addrlist succeed on every legal rendering, and every generated argument / -f value is parsable
+      if eS != "X" && exS != "0" then
+        st ← oracleFail st s!"kind=Irejected flags={flagsS} strat={stratS} f={fsS} args={recS} env={envS} in={inh} E={eS} exit={exS}"
+      if eS != "X" && !queue then
+        st := st.bump "I_generated_not_queued_skipped"
       if exS == "0" && queue then
+        st := st.bump "I_hidden_checked"
         -- the second run (the produced message injected again with -h)
         let r2 := inject env { strategy := 3 } msg
         if !(ex2S == toString r2.exit && (r2.exit != 0 || r2.recips == rcps2)) then
@@ -358,6 +380,7 @@ def handleI (clk : Clock) (st : Stats) (f : List String) : IO Stats := do
             let useHdr := strat == 3 || strat == 4 || (strat == 1 && args.isEmpty)
             let want := (if useArgs then of ['A'] else []) ++ (if useHdr then hdr else [])
             st := st.bump (if resent then "I_resent" else "I_plain")
+            st := st.bump "I_envelope_checked"
             -- oracle (6): envelope recipients = listed mailboxes after the documented rewriting (as a multiset)
             if sortBytes want != sortBytes rcps then
               st ← oracleFail st s!"kind=Irecipients{if angleComment inp then " class=angle-comment" else ""} flags={flagsS} strat={stratS} f={fsS} args={recS} env={envS} in={inh} E={eS} recipients={rcpS} expected={hexListStr want}"
